@@ -131,6 +131,16 @@ class TRec:
         k = self.tags.get(id(obj))
         if k is not None:
             return k
+        if not implicit:
+            # start from the top of the tree the object says it belongs to (parent is public)
+            top, seen = obj, set()
+            while isinstance(getattr(top, 'parent', None), d.ResourceMap) and id(top) not in seen:
+                seen.add(id(top))
+                top = top.parent
+            if top is not obj and id(top) not in self.tags:
+                self.discover(top)
+                if id(obj) in self.tags:
+                    return self.tags[id(obj)]
         if isinstance(obj, d.ResourceMap):
             if implicit:
                 self.implicit += 1
@@ -187,10 +197,12 @@ class TRec:
         if self.sig is None or self.unsupported:
             return
         now = self.signature()
+        # objects first seen with this call are not compared (they are blank, or the test is set aside anyway)
+        now = tuple({k: v for k, v in part.items() if k in old} for part, old in zip(now, self.sig))
         if now == self.sig:
             return
-        pushed = [k for k in now[1] if k in self.sig[1] and now[1][k] == ({},) + self.sig[1][k]]
-        if len(pushed) == 1 and now[0] == self.sig[0] and now[2] == self.sig[2] and set(now[1]) == set(self.sig[1]) \
+        pushed = [k for k in now[1] if now[1][k] == ({},) + self.sig[1][k]]
+        if len(pushed) == 1 and now[0] == self.sig[0] and now[2] == self.sig[2] \
                 and all(now[1][k] == self.sig[1][k] for k in now[1] if k != pushed[0]):
             self.env.loaded, self.env.seen = [], []
             self.env.snaps = {}
